@@ -55,3 +55,7 @@ EXTRA += [
     ("C09", "DsProofs.Properties.C09", ["C09_main", "C09_total", "C09_chain", "C09_mapfork", "C09_compile", "C09_exact", "C09_single_unit", "C09_locSpecOk"]),
     ("C02", "DsProofs.Properties.C02Oracle", ["C02_exact", "C02_mapfork", "oracleSpec_of_C09"]),
 ]
+EXTRA += [
+    ("C02", "DsProofs.Properties.C02Score", ["DsProofs.C02.C02_score_reduce", "DsProofs.C02.C02_score_ok", "DsProofs.C02.C02_score_shapley", "DsProofs.C02.C02_score_accuracy",
+                                              "DsProofs.C02.C02_dispatch_consistent", "DsProofs.C02.C02_dispatch_shapley", "DsProofs.C02.C02_score_shapley_k1"]),
+]
